@@ -411,10 +411,12 @@ def _tolerant_handler(h):
     if not raises:
         return True
     # accepted: the handler first leaves when the path has vanished
-    first = h.body[0]
-    if isinstance(first, ast.If) and "exists" in unparse(first.test) and isinstance(first.test, ast.UnaryOp) and isinstance(first.test.op, ast.Not) \
-            and first.body and isinstance(first.body[-1], (ast.Break, ast.Return, ast.Continue)):
-        return True
+    for st in h.body:
+        if isinstance(st, ast.If) and "exists" in unparse(st.test) and isinstance(st.test, ast.UnaryOp) and isinstance(st.test.op, ast.Not) \
+                and st.body and isinstance(st.body[-1], (ast.Break, ast.Return, ast.Continue)):
+            return True
+        if any(isinstance(n, ast.Raise) for n in walk_local(st)):
+            return False
     return False
 
 
@@ -520,8 +522,9 @@ def eexist(ctx):
                 key=DISK + "::mkdirp::EEXIST handler")
         return
     for h in hs:
-        ifs = [s for s in h.body if isinstance(s, ast.If)]
-        ok = handler_catches(h, ["OSError"]) and len(ifs) == 1 and unparse(ifs[0].test) in ("%s.errno != errno.EEXIST" % h.name, "not %s.errno == errno.EEXIST" % h.name) and isinstance(ifs[0].body[0], ast.Raise)
+        ifs = [s for s in h.body if isinstance(s, ast.If) and any(isinstance(x, ast.Raise) for x in s.body)]
+        stray = [x for s_ in h.body if s_ not in ifs for x in walk_local(s_) if isinstance(x, ast.Raise)]
+        ok = handler_catches(h, ["OSError"]) and len(ifs) == 1 and not stray and unparse(ifs[0].test) in ("%s.errno != errno.EEXIST" % h.name, "not %s.errno == errno.EEXIST" % h.name)
         ctx.check(ok, h, "mkdirp swallows exactly EEXIST (a concurrent creator won the race)", "mkdirp no longer tolerates exactly EEXIST")
     mk = [c for c in calls_in(f) if call_name(c) == "os.makedirs"]
     ctx.check(bool(mk), mk[0] if mk else f, "mkdirp creates all missing parents (os.makedirs)")
@@ -576,7 +579,8 @@ def diff_wipes(ctx):
         ctx.bad(f, "the stored source is no longer compared with the current source", key=MEM + "::MemorizedFunc._check_previous_func_code::source comparison")
         return
     t = eq[0]
-    ctx.check(t.body and isinstance(t.body[-1], ast.Return) and is_const(t.body[-1].value, True) and len(t.body) == 1, t, "identical source => valid")
+    rets_ = [x for s_ in t.body for x in walk_local(s_) if isinstance(x, ast.Return)]
+    ctx.check(bool(rets_) and all(is_const(r_.value, True) for r_ in rets_) and isinstance(t.body[-1], ast.Return), t, "identical source => valid")
     tn = g.nodes_of(t)[0]
     false_succ = g.label_succ(tn, "F")
     clears = [c for c in calls_in(f) if call_name(c) == "self.clear"]
